@@ -233,7 +233,51 @@ def probe():
     finally:
         a.close(); b.close()
     return bad
+
+def kinds_probe():
+    # every kind of function body: plain, generator, coroutine, asynchronous generator. The undeclared print inside the body is blocked,
+    # the declared one goes through
+    import asyncio
+    out = {}
+    def run(kind, markers):
+        if kind == "sync":
+            @deal.has(*markers)
+            def f(): print("", end=""); return 1
+            return lambda: f()
+        if kind == "gen":
+            @deal.has(*markers)
+            def f():
+                print("", end=""); yield 1
+            return lambda: list(f())
+        if kind == "async":
+            @deal.has(*markers)
+            async def f(): print("", end=""); return 1
+            return lambda: asyncio.run(f())
+        @deal.has(*markers)
+        async def f():
+            print("", end=""); yield 1
+        async def drain(): return [v async for v in f()]
+        return lambda: asyncio.run(drain())
+    for kind in ("sync", "gen", "async", "asyncgen"):
+        for markers in ((), ("stdout",)):
+            try: run(kind, markers)(); got = "done"
+            except deal.SilentContractError: got = "SilentContractError"
+            except BaseException as e: got = "exc:" + type(e).__name__
+            out[kind + ("/declared" if markers else "/undeclared")] = got
+    return out
 """
+
+
+def kinds_part(ctx, fr):
+    r = impl.run_impl('pyexec.py', {'src': WAYS_SRC, 'calls': [['kinds_probe', []]]})[0]
+    fr.evaluations += 8; fr.samples.append({'family': 'kinds of function bodies under has()', 'result': r})
+    for kind in ('sync', 'gen', 'async', 'asyncgen'):
+        got = [r.get(kind + '/undeclared'), r.get(kind + '/declared')] if isinstance(r, dict) else r
+        if got != ['SilentContractError', 'done']:
+            # C04-F1: an asynchronous generator function is wrapped like a plain function: the patch covers the creation of the
+            # generator object only
+            fr.violations.append({'scenario': {'family': 'body-kinds', 'kind': kind}, 'impl': r, 'signature': 'async_generator_body' if kind == 'asyncgen' else None,
+                                  'what': f'a print inside the body of a {kind} function under has() / has("stdout"): observed {got}, expected [SilentContractError, done]'})
 
 
 def ways_part(ctx, fr):
@@ -252,5 +296,6 @@ def run(ctx, fr, model_available=True):
     table_part(ctx, fr, model_available)
     lint_part(ctx, fr)
     ways_part(ctx, fr)
+    kinds_part(ctx, fr)
 def search(ctx, fr, model_available=True): return base_scn.search(_me, ctx, fr, model_available)
 classify = base_scn.classify
